@@ -39,7 +39,9 @@ def dset {κ α : Type} [DecidableEq κ] : List (κ × α) → κ → α → Lis
 /-! ### Python values that travel through properties -/
 
 /-- The value universe of the model: `None`, `int` (not `bool`), `bool`, `str`, `float` (as its 64-bit
-pattern, opaque), `list` of `str`. -/
+pattern, opaque), `list` of `str`, and instances of marshal's wrapper classes: `wint tag n` an instance of
+the `int` subclass whose `dbusSignature` is `tag` (Byte, Int16, ... , Boolean), `wstr tag s` of the `str`
+subclass (ObjectPath, Signature). -/
 inductive PyVal where
   | none
   | int (n : Int)
@@ -47,7 +49,15 @@ inductive PyVal where
   | str (s : Str)
   | dbl (bits : Nat)
   | strs (l : List Str)
+  | wint (tag : Char) (n : Int)
+  | wstr (tag : Char) (s : Str)
   deriving DecidableEq, Repr, Inhabited
+
+/-- The plain Python value a peer decodes for a wrapper instance (a Boolean decodes as `bool`). -/
+def PyVal.plain : PyVal → PyVal
+  | .wint tag n => if tag = 'b' then .bool (n ≠ 0) else .int n
+  | .wstr _ s => .str s
+  | v => v
 
 /-- A Python value that may be an instance of one of marshal's wrapper classes (`tag` = its
 `dbusSignature`). -/
@@ -79,6 +89,11 @@ def pyInt : PyVal → Option Int
       some (Int.ofNat (s.foldl (fun acc c => acc * 10 + (c.toNat - '0'.toNat)) 0))
     else none
   | .dbl b => dblTrunc b
+  | .wint _ n => some n
+  | .wstr _ s =>
+    if s ≠ [] ∧ s.all (fun c => '0' ≤ c ∧ c ≤ '9') then
+      some (Int.ofNat (s.foldl (fun acc c => acc * 10 + (c.toNat - '0'.toNat)) 0))
+    else none
   | _ => none
 
 def natRepr (n : Nat) : Str := (Nat.repr n).toList
@@ -98,6 +113,8 @@ def pyStr : PyVal → Option Str
       some ('[' :: (", ".toList.intercalate (l.map fun s => '\'' :: (s ++ ['\'']))) ++ [']'])
     else none
   | .dbl _ => none
+  | .wint _ n => some (if n < 0 then '-' :: natRepr n.natAbs else natRepr n.natAbs)
+  | .wstr _ s => some s
 
 def classOf (c : Char) : Option (String × Char) := dget Gen.C17Props.classMap c
 
@@ -110,7 +127,13 @@ def castClass (sig : Str) (v : PyVal) : Option Typed :=
       if base = "int" then (pyInt v).map fun n => ⟨some tag, .int n⟩
       else if base = "str" then (pyStr v).map fun s => ⟨some tag, .str s⟩
       else none
-    | none => some ⟨none, v⟩
+    | none =>
+      -- repaired (fixes/C17-05): a `str` subclass held by an 's' property is sent as a plain `str`
+      if c = 's' then
+        match v with
+        | .wstr _ s => some ⟨none, .str s⟩
+        | _ => some ⟨none, v⟩
+      else some ⟨none, v⟩
   | _ => some ⟨none, v⟩
 
 /-- `marshal.sigFromPy` (after the repair of F28): wrapper instances answer their `dbusSignature`. -/
@@ -129,6 +152,8 @@ def sigFromPy (t : Typed) : Option Str :=
     | .str _ => some ['s']
     | .strs [] => some ['a', 'v']
     | .strs (_ :: _) => some ['a', 's']
+    | .wint c _ => some [c]
+    | .wstr c _ => some [c]
 
 /-- The DBus types the model knows how to marshal (the keys of `marshal.marshallers` it mirrors). -/
 inductive DTy where
@@ -183,6 +208,8 @@ def truthy : PyVal → Bool
   | .str s => s ≠ []
   | .dbl bits => bits % 9223372036854775808 ≠ 0
   | .strs l => l ≠ []
+  | .wint _ n => n ≠ 0
+  | .wstr _ s => s ≠ []
 
 /-- One marshaller applied to a value, answering the value a peer decodes (`none`: it raises).
 `struct.pack` accepts a `bool` for the integer formats; a `float` only for 'd' (an `int` for 'd' is never
@@ -196,12 +223,15 @@ def marshalTy (ty : DTy) (v : PyVal) : Option PyVal :=
     | _ => none
   | .s => match v with
     | .str s => if noNul s then some (.str s) else none
+    | .wstr _ s => if noNul s then some (.str s) else none
     | _ => none
   | .o => match v with
     | .str s => if pathOk s && noNul s then some (.str s) else none
+    | .wstr _ s => if pathOk s && noNul s then some (.str s) else none
     | _ => none
   | .g => match v with
     | .str s => if s.all (fun c => c.toNat < 128) && s.length ≤ 255 then some (.str s) else none
+    | .wstr _ s => if s.all (fun c => c.toNat < 128) && s.length ≤ 255 then some (.str s) else none
     | _ => none
   | .as => match v with
     | .strs l => if l.all noNul then some (.strs l) else none
@@ -215,6 +245,7 @@ def marshalTy (ty : DTy) (v : PyVal) : Option PyVal :=
     | some (lo, hi) =>
       match v with
       | .int n => if lo ≤ n ∧ n ≤ hi then some (.int n) else none
+      | .wint _ n => if lo ≤ n ∧ n ≤ hi then some (.int n) else none
       | .bool b => some (.int (if b then 1 else 0))
       | _ => none
     | none => none
@@ -245,8 +276,8 @@ def kindOk (sig : Str) (v : PyVal) : Bool :=
     if c = 'v' then true
     else if c = 'b' then (match v with | .bool _ => true | _ => false)
     else if c = 'd' then (match v with | .dbl _ => true | _ => false)
-    else if c = 's' ∨ c = 'o' ∨ c = 'g' then (match v with | .str _ => true | _ => false)
-    else (match v with | .int _ => true | _ => false)
+    else if c = 's' ∨ c = 'o' ∨ c = 'g' then (match v with | .str _ => true | .wstr _ _ => true | _ => false)
+    else (match v with | .int _ => true | .wint _ _ => true | _ => false)
   | _ => true
 
 /-- The repaired `_dbus_PropertySet` accepts the value for a property of signature `sig`. -/
